@@ -15,13 +15,8 @@
    R2  priority_single_runs_to_end (section 9): CLOSED LOOP for single-operator containers: the run
        reaches its last tick, and no suspension is ever issued.  Re-uses the executor half of the closed
        loop of SafetyFacts ([pools_tick_total]).
-       NOT proved: the closed loop for multi-operator containers (it needs the analogue of
-       [runnable]/[pools_tick_total] for containers with several operators and for the suspension phases,
-       and the invariant that a pipeline has at most one holder -- queued job, live container, or
-       suspended container awaiting its re-queue).  A vm_compute sweep over 360,000 small multi-operator
-       workloads (15 x 15 x 2 pipeline triples, 4 memory scripts, 4 arrival patterns, 1-2 pools, several
-       sizes, 10 and 100 ticks/s; about 8% of the runs preempt, 75% have OOM failures) found no run that
-       stops, so no refutation either.
+       The closed loop for multi-operator containers (preemption, suspension, re-queue) is proved in
+       Proofs/PriorityMultiFacts.v ([priority_multi_runs_to_end], [priority_runs_to_end]).
    R3  run-level queue invariants (sections 9-10): class queues hold jobs of their class and only
        well-formed jobs (both modes); suspension commands of a tick name distinct containers (both modes);
        in single-operator mode no operator is queued twice, queued operators are PENDING or FAILED with
